@@ -45,7 +45,7 @@ func runFactoryStateless(a *Analyzer, r *Results) {
 		return
 	}
 	writers = dedupSorted(writers)
-	r.Check("W9.stateless", props("C01", "C09", "C11", "C07", "C20"), "the message factory keeps no state between messages: its fields are written by its constructor only, so every message is built from the current arguments (never from a remembered earlier certificate)", "MessageFactory", pos, len(writers) == 0, strings.Join(writers, "; "), "W")
+	r.Check("W9.stateless", props("C01", "C03", "C09", "C11", "C07", "C20", "C10"), "the message factory keeps no state between messages: its fields are written by its constructor only, so every message is built from the current arguments (never from a remembered earlier certificate)", "MessageFactory", pos, len(writers) == 0, strings.Join(writers, "; "), "W")
 }
 
 // K6.members: the committee a term decides with - members, weights and, through the order, the leader of every view - is
@@ -244,7 +244,95 @@ func runFactoryNil(a *Analyzer, r *Results) {
 	}
 }
 
+// W6.pass: what a factory method is given as the node's prepared certificate is what it encodes: the argument is handed
+// on to the proof builder as it came in (no filter deciding that the certificate is "not worth sending").
+func runFactoryPass(a *Analyzer, r *Results) {
+	n := 0
+	for _, f := range a.P.Funcs {
+		if !strings.HasSuffix(funcPkgPath(f), "services/messagesfactory") || f.Parent() != nil {
+			continue
+		}
+		hasParam := false
+		for _, p := range f.Params {
+			if typeShort(p.Type()) == "preparedmessages.PreparedMessages" {
+				hasParam = true
+			}
+		}
+		if !hasParam {
+			continue
+		}
+		for _, b := range f.Blocks {
+			for _, in := range b.Instrs {
+				call, ok := in.(*ssa.Call)
+				if !ok {
+					continue
+				}
+				g := call.Call.StaticCallee()
+				if g == nil || !strings.HasSuffix(funcPkgPath(g), "services/messagesfactory") {
+					continue
+				}
+				for i, gp := range g.Params {
+					if typeShort(gp.Type()) != "preparedmessages.PreparedMessages" || i >= len(call.Call.Args) {
+						continue
+					}
+					n++
+					_, isParam := call.Call.Args[i].(*ssa.Parameter)
+					r.Check("W6.pass", props("C09", "C01", "C11", "C20", "C05"), "a factory method encodes the prepared certificate it was given: the argument reaches the proof builder unchanged (the factory never decides to leave a certificate out)", shortName(f)+"|"+shortName(g), a.P.InstrPos(in), isParam,
+						"the prepared messages handed to "+shortName(g)+" are not the caller's own argument (filtered or replaced)", "D")
+				}
+			}
+		}
+	}
+	if n == 0 {
+		r.Undecided = append(r.Undecided, "no hand-over of prepared messages inside the message factory found (W6.pass anchor)")
+	}
+}
+
+// F9.entry: consensus messages reach a term only through the height / instance filter. Nothing else in the library hands a
+// message to the term's HandleConsensusMessage (a shortcut skips the instance, own-sender and height checks and the cache).
+func runTermEntry(a *Analyzer, r *Results) {
+	n := 0
+	var bad []string
+	pos := "-"
+	for _, f := range a.P.Funcs {
+		pk := funcPkgPath(f)
+		inside := strings.HasSuffix(pk, "services/rawmessagesfilter") || strings.HasSuffix(pk, "services/leanhelixterm")
+		for _, b := range f.Blocks {
+			for _, in := range b.Instrs {
+				ci, ok := in.(ssa.CallInstruction)
+				if !ok {
+					continue
+				}
+				cc := ci.Common()
+				hit := false
+				if cc.IsInvoke() && cc.Method.Name() == "HandleConsensusMessage" {
+					ts := typeShort(cc.Value.Type())
+					hit = strings.HasPrefix(ts, "rawmessagesfilter.") || strings.HasPrefix(ts, "leanhelixterm.")
+				} else if sc := cc.StaticCallee(); sc != nil && sc.Name() == "HandleConsensusMessage" && sc.Signature.Recv() != nil {
+					hit = strings.HasPrefix(typeShort(sc.Signature.Recv().Type()), "leanhelixterm.")
+				}
+				if !hit {
+					continue
+				}
+				n++
+				if !inside {
+					bad = append(bad, shortName(f))
+					pos = a.P.InstrPos(in)
+				}
+			}
+		}
+	}
+	if n == 0 {
+		r.Undecided = append(r.Undecided, "no delivery of a consensus message to a term found (F9.entry anchor)")
+		return
+	}
+	bad = dedupSorted(bad)
+	r.Check("F9.entry", props("C07", "C08", "C17", "C01", "C10"), "a consensus message is handed to a term only by the raw-message filter (own-sender, instance and height checks, future cache): no other library code calls the term's HandleConsensusMessage", "HandleConsensusMessage", pos, len(bad) == 0, "delivered to the term directly from "+strings.Join(bad, ", "), "W")
+}
+
 func runR3(a *Analyzer, r *Results) {
+	runTermEntry(a, r)
+	runFactoryPass(a, r)
 	runFactoryNil(a, r)
 	runFactoryStateless(a, r)
 	runCommitteeSource(a, r)
